@@ -690,11 +690,9 @@ def _why(verdict):
 
 
 CLASSES = [  # priority order: a failing case is filed under the first class that explains one of its clauses
-    "unflatten:estimated-empty:TypeError", "swap:empty-branch:unswapped-tree-outside-shape",
-    "split:relative:lower-outside-active", "split:unaligned-range:upper-outside-active",
+    "split:unaligned-range:upper-outside-active",
     "merge:absolute:active-range-of-upper-rank", "merge:relative:shape-and-active-range-of-upper-rank",
-    "flatten:tuple:levels>=2:nested-active-range", "flatten:estimated:shape-from-last-tuple-coordinate",
-    "updateCoords:estimated-shape-stale", "lazy:project:rank-id-unknown"]
+    "flatten:estimated:shape-from-last-tuple-coordinate", "lazy:project:rank-id-unknown"]
 
 
 def explain(case, tags, clause):
@@ -711,15 +709,7 @@ def explain(case, tags, clause):
     op = case["op"]
     name = op["name"]
     k = op.get("k", 0)
-    if name == "swap" and "swap-empty-branch" in tags and \
-            clause in (f"shape@{k}", f"active@{k}", f"shape@{k + 1}", f"active@{k + 1}"):
-        return "swap:empty-branch:unswapped-tree-outside-shape"
-    if name == "unflatten":
-        if clause == "error:ERR:TypeError" and "src-est" in tags and "unflatten-entry-not-tuple" in tags:
-            return "unflatten:estimated-empty:TypeError"
     if name == "split":
-        if op.get("rel") and clause == f"active@{k + 1}":
-            return "split:relative:lower-outside-active"
         if clause == f"active@{k}" and "src-explicit-range" in tags:
             return "split:unaligned-range:upper-outside-active"
     if name in ("merge", "flatten"):
@@ -728,12 +718,8 @@ def explain(case, tags, clause):
             return "merge:absolute:active-range-of-upper-rank"
         if st == "relative" and clause in (f"active@{k}", f"shape@{k}"):
             return "merge:relative:shape-and-active-range-of-upper-rank"
-        if st == "tuple" and op["levels"] >= 2 and clause == f"active@{k}":
-            return "flatten:tuple:levels>=2:nested-active-range"
         if st in ("tuple", "pair") and clause == f"shape@{k}" and "src-est" in tags:
             return "flatten:estimated:shape-from-last-tuple-coordinate"
-    if name == "updc" and "src-est" in tags and clause.startswith(("shape@", "active@")):
-        return "updateCoords:estimated-shape-stale"
     return None
 
 
